@@ -1390,7 +1390,8 @@ def program_phase(chk, drv, r, work, tier, state, n_unit):
                       "call-pedigree:flat": 1, "call-pedigree:prior": 1, "prior-mode": m} for m in ("mixed", "last0", "random", "random", "random", "random")]
         for k, plan in enumerate(plans):
             sub = C.rng(f"{PROP}:ds{k}")
-            feats = {"nodepth"} | ({"mates"} if k % 2 else set())
+            # every second data set: a locus (with SNVs) over which NO sample has a read - FORMAT/DP = 0 everywhere, INFO/DP = 0
+            feats = {"nodepth"} | ({"mates"} if k % 2 else set()) | ({"nodepth_all"} if k % 2 == 0 else set())
             ds = S.make_dataset(sub, os.path.join(work, f"ds{k}"), n_samples=3 if k % 2 == 0 else 4, n_loci=4 if k % 2 == 0 else 3,
                                 ploidies=(2, 4) if k % 3 != 2 else (2, 4, 6), max_snvs=4, features=feats, depth=(6, 20))
             chk.count(f"dataset ploidies={sorted(ds.ploidy.values())}")
